@@ -117,7 +117,9 @@ CHECKS['C06'] = dict(level=MC, ref='4 C06',
          'separate norm factor (|c| bookkeeping), MPO@MPS (Dot over bra legs), MPO@MPO, conj, transpose, conjugate-transpose, reverse_sites; measure_overlap / measure_mpo (single MPO, sums of MPOs with '
          'amplitudes, charged MPOs and their conj/H between the states they connect) are exact numbers. zipper, compression_ (1site / 2site, also every intermediate yield of the iterator, normalize=False) and '
          'mps_from_tensor contain SVD/QR: their dense result is rounded and must be EXACTLY the integer product / the source tensor. Periodic MPOs: the ring of site tensors is contracted with tensor events '
-         '(tensordot / transpose / trace, each validated by TLC) and MpoPBC.to_tensor(), also with a non-unit factor, must be a copy of that register; measure_mpo(bra, MpoPBC, ket) must equal the vdot computed from it.',
+         '(tensordot / transpose / trace, each validated by TLC) and MpoPBC.to_tensor(), also with a non-unit factor, must be a copy of that register; measure_mpo(bra, MpoPBC, ket) must equal the vdot computed from it. '
+         'The environment protocol of every compression_ run is recorded from outside and validated by TraceEnv: every read of the cache fresh (EnvCoherence) and the cache events exactly Sweeps!Comp1 / Comp2 per sweep '
+         '(SweepsMC model-checks these schedules together with those of dmrg_ / tdvp_).',
     note='bounded: chain lengths 1..4 (dense representative <= 300 elements), bond dimension 1..3, 12 families (spin-1/2, spin-1, spinless, spinful fermions x symmetries), 240/4000 expression programs of '
          '10/14 steps, 120/2000 periodic-MPO programs (N=1..3). Results of zipper / compression_ / mps_from_tensor are compared after rounding (integers within 1e-7 relative); compression_ is started from the zipper '
          'result (a random start need not converge in a few sweeps); sums of MPOs with a periodic MPO and MpoPBC @ Mpo (unsupported by the library) not covered; the zero state (empty site tensors) is not used as an operand',
